@@ -139,5 +139,16 @@ def node_to_spec(node, pmap, depth=0, limit=200):
             tuple(node_to_spec(c, pmap, depth + 1, limit) for c in node.children))
 
 
+def raised_in_repo(e):
+    """True when the innermost frame of the exception's traceback is parglare code (the real code
+    raised while a monitor was using its public API), False when the checker's own code raised."""
+    tb = e.__traceback__
+    last = None
+    while tb is not None:
+        last = tb.tb_frame.f_code.co_filename
+        tb = tb.tb_next
+    return bool(last) and (os.sep + "parglare" + os.sep) in last and (os.sep + "vlib" + os.sep) not in last
+
+
 def exc_str(e):
     return f"{type(e).__module__}.{type(e).__name__}: {str(e)[:200]}"
